@@ -14,11 +14,19 @@ import (
 )
 
 const (
-	repoDir  = "/repo"
-	verifDir = "/verif"
-	goBin    = "go1.26.8"
-	hclMod   = "github.com/hashicorp/hcl/v2"
+	repoDir = "/repo"
+	goBin   = "go1.26.8"
+	hclMod  = "github.com/hashicorp/hcl/v2"
 )
+
+// verifDir is the root of the verification machinery (bin/check exports it, so
+// that a snapshot of /verif uses its own sources and writes its own evidence).
+var verifDir = func() string {
+	if d := os.Getenv("VERIF_DIR"); d != "" {
+		return d
+	}
+	return "/verif"
+}()
 
 type env struct {
 	prop    string
